@@ -45,14 +45,14 @@ pub fn val(v: &Value, m: Mode) -> J {
             if m == Mode::Loose {
                 json!(["i", int_json(*n as i64)])
             } else {
-                json!(["i32", int_json(*n as i64)])
+                json!(["i32", n.to_string()])
             }
         }
         Value::Int64(n) => {
             if m == Mode::Loose {
                 json!(["i", int_json(*n)])
             } else {
-                json!(["i64", int_json(*n)])
+                json!(["i64", n.to_string()])
             }
         }
         Value::Float64(f) => {
@@ -63,9 +63,21 @@ pub fn val(v: &Value, m: Mode) -> J {
             }
         }
         Value::String(s) => json!(["s", s.to_string()]),
-        Value::Bool(b) => json!(["b", b]),
+        Value::Bool(b) => {
+            if m == Mode::Loose {
+                json!(["b", b])
+            } else {
+                json!(["b", b.to_string()])
+            }
+        }
         Value::Null => json!(["n"]),
-        Value::Timestamp(t) => json!(["ts", int_json(*t)]),
+        Value::Timestamp(t) => {
+            if m == Mode::Loose {
+                json!(["ts", int_json(*t)])
+            } else {
+                json!(["ts", t.to_string()])
+            }
+        }
         Value::Vector(v) => {
             if m == Mode::Loose {
                 json!(["v", v.iter().map(|x| float_loose(*x as f64)).collect::<Vec<_>>()])
@@ -73,7 +85,13 @@ pub fn val(v: &Value, m: Mode) -> J {
                 json!(["v", v.iter().map(|x| format!("bits:{:08x}", x.to_bits())).collect::<Vec<_>>()])
             }
         }
-        Value::VectorInt8(v) => json!(["v8", v.iter().map(|x| *x as i64).collect::<Vec<_>>()]),
+        Value::VectorInt8(v) => {
+            if m == Mode::Loose {
+                json!(["v8", v.iter().map(|x| *x as i64).collect::<Vec<_>>()])
+            } else {
+                json!(["v8", v.iter().map(|x| x.to_string()).collect::<Vec<_>>()])
+            }
+        }
     }
 }
 
@@ -115,7 +133,7 @@ pub fn from_json(j: &J) -> Value {
         "i" | "i64" => Value::Int64(num(&a[1])),
         "i32" => Value::Int32(num(&a[1]) as i32),
         "s" => Value::string(a[1].as_str().unwrap()),
-        "b" => Value::Bool(a[1].as_bool().unwrap()),
+        "b" => Value::Bool(a[1].as_bool().unwrap_or_else(|| a[1].as_str() == Some("true"))),
         "n" => Value::Null,
         "ts" => Value::Timestamp(num(&a[1])),
         "f" => {
@@ -141,7 +159,7 @@ pub fn from_json(j: &J) -> Value {
                 })
                 .collect(),
         ),
-        "v8" => Value::vector_int8(a[1].as_array().unwrap().iter().map(|x| x.as_i64().unwrap() as i8).collect()),
+        "v8" => Value::vector_int8(a[1].as_array().unwrap().iter().map(|x| num(x) as i8).collect()),
         _ => panic!("unknown tag {tag}"),
     }
 }
